@@ -150,13 +150,15 @@ func exercise(c c10Case, res *c10Result, report func(kind, call, detail string))
 		extra = append(extra, regexp2.OptionMaxBacktrackingStackSize([]int{0, 1, 5, 64, 1000}[rng.Intn(5)]))
 	}
 	// the buffer and replacement caches switched off or made tiny: every call then takes the un-pooled paths
-	if rng.Intn(6) == 0 {
+	// (a stream of its own: the draws of the cache and large-text decisions do not shift the inputs)
+	rng2 := rand.New(rand.NewSource(c.Seed ^ 0x5eed5eed))
+	if rng2.Intn(6) == 0 {
 		sizes := []int{0, 1, 16, 512, -1}
 		extra = append(extra,
-			regexp2.OptionMaxCachedRuneBufferLength(sizes[rng.Intn(5)]),
-			regexp2.OptionMaxCachedReplaceBufferLength(sizes[rng.Intn(5)]),
-			regexp2.OptionMaxCachedReplacerDataEntries(sizes[rng.Intn(5)]),
-			regexp2.OptionMaxCachedReplacerDataBytes(sizes[rng.Intn(5)]))
+			regexp2.OptionMaxCachedRuneBufferLength(sizes[rng2.Intn(5)]),
+			regexp2.OptionMaxCachedReplaceBufferLength(sizes[rng2.Intn(5)]),
+			regexp2.OptionMaxCachedReplacerDataEntries(sizes[rng2.Intn(5)]),
+			regexp2.OptionMaxCachedReplacerDataBytes(sizes[rng2.Intn(5)]))
 		res.Counters["cases_with_cache_limits"]++
 	}
 	mustOpts := []regexp2.CompileOption{regexp2.RegexOptions(c.Opts)}
@@ -336,8 +338,8 @@ func exercise(c c10Case, res *c10Result, report func(kind, call, detail string))
 	}
 	// one text beyond the largest pooled buffer class (256 Ki runes): the entry points that decode or
 	// build into pooled buffers
-	if rng.Intn(40) == 0 && len(inputs) > 0 && !budgetGone {
-		unit := inputs[rng.Intn(len(inputs))]
+	if rng2.Intn(40) == 0 && len(inputs) > 0 && !budgetGone {
+		unit := inputs[rng2.Intn(len(inputs))]
 		if unit == "" {
 			unit = "ab \n"
 		}
